@@ -3,6 +3,7 @@ import FluentVerif.Driver.Tree
 import FluentVerif.Forward.Spec
 import FluentVerif.Proto.Chunk
 import FluentVerif.Proto.ChunkID
+import FluentVerif.Proto.Alloc
 /-! driver operations on the codec: DEC (decode) -/
 namespace FV.Driver
 
@@ -40,6 +41,17 @@ def decodeModel (ty : String) (p : Path) (prev : Option Bytes) (b : Bytes) : Opt
   | "Ping" => some <| resStr n renderPing (Ping.unmarshal p (recvOf {} (Ping.unmarshal p) prev) b)
   | "Pong" => some <| resStr n renderPong (Pong.unmarshal p (recvOf {} (Pong.unmarshal p) prev) b)
   | _ => none
+
+/-- elements requested by count-sized `make` calls when `ty` is decoded from the slice `b` (fresh receiver) -/
+def allocModel (ty : String) (b : Bytes) : Nat :=
+  match ty with
+  | "Message" => Message.alloc b
+  | "MessageExt" => MessageExt.alloc b
+  | "Forward" => Forward.alloc b
+  | "Entry" => Entry.alloc b
+  | "EntryExt" => EntryExt.alloc b
+  | "EntryList" => EntryList.alloc b
+  | _ => 0
 
 /-- the independent oracle: where does the first complete msgpack value of `b` end? -/
 def boundary (b : Bytes) : Option Nat :=
@@ -98,11 +110,24 @@ def opDEC (args obs : List String) : Option DecOut :=
         let fresh := fresh.filter (· ≠ "aliased")
         if used == ["skip"] then some { corr := none, fails := [], branch := s!"dec.{ty}.{ps}.{cls}.skip" } else
         let go := " ".intercalate used
+        -- C10, memory clause: what the slice decode requested against the model's count-sized requests
+        -- (`T.alloc b` elements, `Proto/Alloc.lean`).  Within 64·len + 4 MiB: proportionate.  Beyond that but within
+        -- 128 bytes per element the model says were requested: the count-driven allocation (open finding, names
+        -- the model's figure).  Beyond even that: memory the model cannot account for.  A child that died of its
+        -- address-space limit is explained from 2²¹ requested elements on (a Go 1.23 map of 2²² elements takes 300 MB in
+        -- one block, and under `ulimit -v` the runtime gives up well before 3 GB are in use).
+        let pred := allocModel ty b
         let fAlloc := match allocTok with
           | some t =>
-            if t == "alloc=oom" then ["C10 alloc-crash (fatal out of memory under a 3 GB address-space limit)"]
+            if p != .bytes then [] else
+            if t == "alloc=oom" then
+              if pred ≥ 2097152 then [s!"C10 alloc-crash count-driven (fatal out of memory under a 3 GB address-space limit; model-elements={pred} len={b.length})"]
+              else [s!"C10 alloc-unexplained crash (fatal out of memory; the model accounts for {pred} requested elements only, len={b.length})"]
             else match (t.drop 6).toString.toNat? with
-              | some a => if a > 64 * b.length + 4194304 then [s!"C10 alloc-disproportionate alloc={a} len={b.length}"] else []
+              | some a =>
+                if a ≤ 64 * b.length + 4194304 then []
+                else if a ≤ 64 * b.length + 4194304 + 128 * pred then [s!"C10 alloc-disproportionate count-driven alloc={a} len={b.length} model-elements={pred}"]
+                else [s!"C10 alloc-unexplained alloc={a} len={b.length} model-elements={pred}"]
               | none => []
           | none => []
         let bd := boundary b
